@@ -147,6 +147,7 @@ func c12TypeTable(p *core.Prog, r *core.Run) map[int64]string {
 	}
 	dataF := field(p, DNS, "RR", "Data")
 	deflt := ""
+	nDefault := 0
 	storeBlocks := map[*ssa.BasicBlock]bool{}
 	for _, st := range fieldStores(p, []*ssa.Function{rr}, dataF) {
 		storeBlocks[st.Block()] = true
@@ -191,6 +192,25 @@ func c12TypeTable(p *core.Prog, r *core.Run) map[int64]string {
 			}
 		}
 		if len(codes) == 0 {
+			// the fallback store: reached only when the type is none of the
+			// codes consumers rely on (a shortcut keyed on something else - class,
+			// length - would hand them the fallback type for those codes)
+			var missing []string
+			for _, k := range []int64{1, 2, 5, 12, 28, 41, 65} {
+				ne := false
+				for _, f := range p.Facts(st.Block()) {
+					if f.Op == "!=" && f.L.Op == "field" && f.L.Name == "Type" {
+						if c, ok := f.R.ConstInt(); ok && c == k {
+							ne = true
+						}
+					}
+				}
+				if !ne {
+					missing = append(missing, fmt.Sprint(k))
+				}
+			}
+			r.Check("C12.T4", "decoder:fallback-store#"+fmt.Sprint(nDefault), len(missing) == 0, p.InstrPos(st), "a store of %s into RR.Data that is not keyed on a type code is reached only when the type is none of A, NS, CNAME, PTR, AAAA, OPT, HTTPS (not excluded: %s)", typ, strings.Join(missing, ","))
+			nDefault++
 			deflt = typ
 			continue
 		}
